@@ -386,6 +386,21 @@ func (s *c21Srv) handle(srv *refpeer.Server, sc *refpeer.SrvConn, m *refpeer.Msg
 		resp = &ua.CreateSubscriptionResponse{ResponseHeader: refpeer.RespHeader(cr, ua.StatusOK), SubscriptionID: uint32(1 + s.r.Intn(1000)), RevisedPublishingInterval: 10, RevisedLifetimeCount: 100, RevisedMaxKeepAliveCount: 10}
 		x = 1000
 	}
+	// multi-step sequences: a well-shaped first answer leads the client into its follow-up request, whose answer is
+	// generated again (Browse with a continuation point -> BrowseNext)
+	if y := s.r.Intn(100); x != 1000 {
+		cpResult := []*ua.BrowseResult{{StatusCode: ua.StatusOK, ContinuationPoint: []byte{1, 2, 3, byte(y)}, References: []*ua.ReferenceDescription{{ReferenceTypeID: ua.NewNumericNodeID(0, 35), IsForward: true, NodeID: ua.NewExpandedNodeID(ua.NewNumericNodeID(1, uint32(1000+y)), "", 0), BrowseName: &ua.QualifiedName{Name: "x"}, DisplayName: &ua.LocalizedText{}, TypeDefinition: ua.NewExpandedNodeID(ua.NewNumericNodeID(0, 0), "", 0)}}}}
+		switch rq := m.Service.(type) {
+		case *ua.BrowseRequest:
+			if y < 35 && len(rq.NodesToBrowse) == 1 {
+				kind, resp, x = "one result with a continuation point", &ua.BrowseResponse{ResponseHeader: refpeer.RespHeader(rq, ua.StatusOK), Results: cpResult, DiagnosticInfos: []*ua.DiagnosticInfo{}}, 1000
+			}
+		case *ua.BrowseNextRequest:
+			if y < 20 {
+				kind, resp, x = "one more result with a continuation point", &ua.BrowseNextResponse{ResponseHeader: refpeer.RespHeader(rq, ua.StatusOK), Results: cpResult, DiagnosticInfos: []*ua.DiagnosticInfo{}}, 1000
+			}
+		}
+	}
 	switch {
 	case x == 1000:
 	case want != nil && x < 55:
